@@ -394,12 +394,15 @@ def c10(prop, tier):
         jobs.append(Job("plonk-options-" + c, "./backend/plonk/" + c, ["prelude_sym.go", "c10_opts_plonk.go"], {"PKGNAME": "plonk", "CURVE": c, "PLONKPKG": "github.com/consensys/gnark/backend/plonk/" + c}))
     for f in (["bn254"] if tier == "quick" else ["bn254", "tinyfield", "bls12-381"]):
         jobs.append(Job("run-schedules-" + f, "./constraint/" + f, ["prelude_sym.go", "c10_run.go"],
-                        {"PKGNAME": "cs", "NBTASKCHOICES": "1" if tier == "quick" else "2", "PREEMPTS": "1" if tier == "quick" else "2"}))
+                        {"PKGNAME": "cs", "NBTASKCHOICES": "1" if tier == "quick" else "2", "PREEMPTS": "1"}))
+        if tier != "quick":
+            # two preemptions with 2 workers (with 3 workers the schedule count exceeds the path budget: stated bound)
+            jobs.append(Job("run-schedules-2preempt-" + f, "./constraint/" + f, ["prelude_sym.go", "c10_run.go"], {"PKGNAME": "cs", "NBTASKCHOICES": "1", "PREEMPTS": "2"}))
     return run_property(prop, tier, jobs,
-                        title="C10: two solves sharing one compiled system execute the real Reset()/Solve() of the stateful lookup blueprint as atomic blocks under every interleaving (symbolic schedule) with symbolic witnesses; each must get its own table entries. Also: sequential re-use (Reset restores the initial state). Solver run(): worker pool / task channel / error channel / WaitGroup under a cooperative goroutine scheduler, every interleaving at synchronisation operations within a preemption bound (1 quick, 2 thorough), 2 (thorough: 2..3) workers, two symbolic failing-instruction ids over 5 representative positions: run() returns on every schedule (no deadlock, no panic), fails iff an instruction failed with that instruction's error, otherwise processed every instruction once.",
+                        title="C10: two solves sharing one compiled system execute the real Reset()/Solve() of the stateful lookup blueprint as atomic blocks under every interleaving (symbolic schedule) with symbolic witnesses; each must get its own table entries. Also: sequential re-use (Reset restores the initial state). Solver run(): worker pool / task channel / error channel / WaitGroup under a cooperative goroutine scheduler, every interleaving at synchronisation operations within a preemption bound (quick: 1 preemption, 2 workers; thorough: 1 preemption with 2..3 workers and 2 preemptions with 2 workers), two symbolic failing-instruction ids over 5 representative positions: run() returns on every schedule (no deadlock, no panic), fails iff an instruction failed with that instruction's error, otherwise processed every instruction once.",
                         design_ref="DESIGN.md §3 C10",
                         assumptions=["block-level atomicity of Reset() and Solve() (sub-block data races are the race detector's domain)", "abstract Solver with the contract checked in C06"],
-                        outside=["goroutine pipelines of the provers", "sync.Pool internals", "newSolver's GKR option handling", "data races inside processInstruction (the scheduler switches at synchronisation operations only)", "more than 2 preemptions per schedule"],
+                        outside=["goroutine pipelines of the provers", "sync.Pool internals", "newSolver's GKR option handling", "data races inside processInstruction (the scheduler switches at synchronisation operations only)", "more than 2 preemptions per schedule; 2 preemptions with 3 workers"],
                         finding_matcher=essa_matcher)
 
 
